@@ -42,6 +42,9 @@ TSignInternal == /\ IsEv("SignInternal") /\ NoPanic
 TVerifyInternal == /\ IsEv("VerifyInternal") /\ NoPanic
                /\ VerifyInternal(Ev.pk, Ev.mp, Ev.sig)
                /\ out'.res = Ev.res
+TDudect ==     /\ IsEv("Dudect") /\ NoPanic
+               /\ Dudect(Ev.fault, Ev.at)
+               /\ out'.ok = Ev.ok /\ out'.rnglog = Ev.rnglog
 TSer ==        /\ IsEv("Ser") /\ NoPanic
                /\ Serialise(Ev.h, Ev.bytes)
                /\ Ev.len = IF keys[Ev.h].kind = "pk" THEN PkLen[keys[Ev.h].set] ELSE SkLen[keys[Ev.h].set]
@@ -94,7 +97,7 @@ TReset ==      /\ IsEv("Reset")
 \* a remark of the harness about how the following lines were selected (no call of the library)
 TNote ==       IsEv("Note") /\ UNCHANGED << keys, issued, sigof, ser, fmt, out >>
 
-TNext == TReset \/ TNote \/ TKeyGenSeed \/ TKeyGenRng \/ TSign \/ TVerify \/ TSignInternal \/ TVerifyInternal \/ TSer \/ TDeser \/ TDerive \/ TClone \/ TDrop
+TNext == TReset \/ TNote \/ TKeyGenSeed \/ TKeyGenRng \/ TSign \/ TVerify \/ TSignInternal \/ TVerifyInternal \/ TDudect \/ TSer \/ TDeser \/ TDerive \/ TClone \/ TDrop
          \/ TFlipSweep \/ TDrawSweep \/ TFresh
 TSpec == TInit /\ [][TNext]_tvars
 
